@@ -41,6 +41,8 @@ def run(seed):
             out[pid] = {"rc": r.returncode, "keys": sorted(set(keys))[:4], "broken": broken}
             if os.path.exists(rp):
                 os.remove(rp)
+        own = out.get(d, {}).get("rc")
+        print("done %s/%s own rc=%s others=%s undecided=%s" % (d, v, own, ",".join(p for p in PIDS if p != d and out[p]["rc"] == 1), ",".join(p for p in PIDS if out[p]["rc"] == 2)), flush=True)
         return seed, out
     finally:
         shutil.rmtree(scratch, ignore_errors=True)
